@@ -55,6 +55,8 @@ type VerifSchedResult struct {
 	// scheduling point: "main+watcher" = the main loop was doing something else than waiting
 	// for input (and forwarding cursor reports) while the resize handler was in progress.
 	Overlaps []string `json:",omitempty"`
+	// ReportFate: thread name -> what happened to the answer to its LAST cursor-position query
+	ReportFate map[string]string `json:",omitempty"`
 }
 
 // VerifSchedRun executes one schedule.
@@ -113,11 +115,6 @@ func verifSchedRun(spec *VerifSchedSpec) (res *VerifSchedResult) {
 		term.Write(p)
 		term2.Write(p)
 	}
-	term.OnDSR = func(row, col int) {
-		s.Stdin = append(s.Stdin, []byte(fmt.Sprintf("\x1b[%d;%dR", row, col))...)
-	}
-	overlaps := map[string]bool{}
-	var overlapOrder []string // chronological
 	role := func(name string) string {
 		switch {
 		case name == "main":
@@ -127,6 +124,40 @@ func verifSchedRun(spec *VerifSchedSpec) (res *VerifSchedResult) {
 		}
 		return "watcher"
 	}
+	// Fate of every cursor-position report: who asked, who consumed the answer. The answers are
+	// indistinguishable for the library; the harness tags the bytes of the input queue.
+	type query struct{ issuer, fate string }
+	var queries []*query
+	var tags []int // one per byte of s.Stdin: index in queries, or -1 for user input
+	pushInput := func(b []byte, tag int) {
+		for len(tags) < len(s.Stdin) {
+			tags = append(tags, -1)
+		}
+		s.Stdin = append(s.Stdin, b...)
+		for range b {
+			tags = append(tags, tag)
+		}
+	}
+	term.OnDSR = func(row, col int) {
+		queries = append(queries, &query{issuer: s.CurName(), fate: "unread"})
+		pushInput([]byte(fmt.Sprintf("\x1b[%d;%dR", row, col)), len(queries)-1)
+	}
+	s.OnRead = func(thread, where string, n int) {
+		for i := 0; i < n && i < len(tags); i++ {
+			if tags[i] >= 0 {
+				queries[tags[i]].fate = "read by " + role(thread) + "@" + where
+			}
+		}
+		if n > len(tags) {
+			n = len(tags)
+		}
+		tags = tags[n:]
+		if spec.Trace {
+			res.Log = append(res.Log, fmt.Sprintf("#%d %s reads %d byte(s) at %s", len(s.Decisions), thread, n, where))
+		}
+	}
+	overlaps := map[string]bool{}
+	var overlapOrder []string // chronological
 	s.OnDecision = func() {
 		var busy []string
 		for _, t := range s.ThreadStates() {
@@ -193,11 +224,11 @@ func verifSchedRun(spec *VerifSchedSpec) (res *VerifSchedResult) {
 	userEnabledAtQuiescenceOnly := !spec.TypeAhead
 	s.Env = []*verifrt.EnvEvent{
 		{Name: "user-chunk", Cost: 0, Enabled: func() bool { return next < len(spec.Script) && userEnabledAtQuiescenceOnly && s.Quiescent() }, Do: func() {
-			s.Stdin = append(s.Stdin, spec.Script[next]...)
+			pushInput(spec.Script[next], -1)
 			next++
 		}},
 		{Name: "user-typeahead", Cost: 1, Enabled: func() bool { return next < len(spec.Script) && spec.TypeAhead }, Do: func() {
-			s.Stdin = append(s.Stdin, spec.Script[next]...)
+			pushInput(spec.Script[next], -1)
 			next++
 		}},
 		{Name: "winch", Cost: 1, Enabled: func() bool { return winch > 0 && s.Started() }, Do: func() {
@@ -240,6 +271,11 @@ func verifSchedRun(spec *VerifSchedSpec) (res *VerifSchedResult) {
 	}()
 	res.Decisions = s.Decisions
 	res.Overlaps = overlapOrder
+	// the fate of the last report each thread asked for (by thread name)
+	res.ReportFate = map[string]string{}
+	for _, q := range queries {
+		res.ReportFate[q.issuer] = q.fate
+	}
 	switch {
 	case s.Failure != "" && strings.HasPrefix(s.Failure, "replay divergence"):
 		res.Outcome = "harness-failure"
